@@ -39,6 +39,14 @@ def run_e2(pid, part, tier, seed, tmp, only=None, concrete=False):
     """Build and run one symgroup harness binary. Returns its report dict (or an error report)."""
     name = part["cmd"]
     binp = os.path.join(tmp, name)
+    e2dir = os.path.join(VERIF, "e2")
+    if REPO != "/repo":
+        # scratch copy of the tree under test (mutation self-tests, seeded changes): same module, other replace target
+        e2dir = os.path.join(tmp, "e2")
+        if not os.path.exists(e2dir):
+            shutil.copytree(os.path.join(VERIF, "e2"), e2dir)
+            gm = open(os.path.join(e2dir, "go.mod")).read().replace("=> /repo", "=> " + REPO)
+            open(os.path.join(e2dir, "go.mod"), "w").write(gm)
     build = ["go", "build", "-o", binp]
     ov = part.get("overlay")
     if ov:
@@ -46,7 +54,7 @@ def run_e2(pid, part, tier, seed, tmp, only=None, concrete=False):
         json.dump({"Replace": {os.path.join(REPO, k): os.path.join(VERIF, v) for k, v in ov.items()}}, open(ovf, "w"))
         build += ["-overlay", ovf]
     build += ["./cmd/" + name]
-    rc, out, dt = sh(build, cwd=os.path.join(VERIF, "e2"), timeout=900)
+    rc, out, dt = sh(build, cwd=e2dir, timeout=900)
     if rc != 0:
         return {"engine": "E2 symgroup", "part": name, "tool_error": "build failed:\n" + out[-3000:]}
     outp = os.path.join(tmp, name + ".json")
@@ -84,7 +92,7 @@ def match_known(pid, key, kf):
 
 
 def write_replay(pid, f, part, seed):
-    d = os.path.join(VERIF, "replays", pid)
+    d = os.path.join(VERIF if REPO == "/repo" else tempfile.gettempdir(), "replays", pid)
     os.makedirs(d, exist_ok=True)
     h = hashlib.sha256(f["key"].encode()).hexdigest()[:12]
     p = os.path.join(d, h + ".json")
@@ -173,12 +181,14 @@ def finish(pid, prop, tier, seed, reports, wall):
     for key, (k, f) in sorted(known.items()):
         lines.append("KNOWN-FINDING: property=%s %s [%s]" % (pid, k["what"], f["key"]))
     seenv = set()
+    if REPO == "/repo":
+        shutil.rmtree(os.path.join(VERIF, "replays", pid), ignore_errors=True)
     for f, r in viol:
-        p = write_replay(pid, f, r, seed)
-        if p in seenv:
+        if f["key"] in seenv:
             continue
-        seenv.add(p)
+        seenv.add(f["key"])
         if len(seenv) <= 25:
+            p = write_replay(pid, f, r, seed)
             lines.append("VIOLATION property=%s replay=%s  # %s: %s" % (pid, p, f["key"], (f.get("detail") or "")[:160].replace("\n", " ")))
     for m in inconc[:20]:
         lines.append("INCONCLUSIVE property=%s %s" % (pid, m.replace("\n", " ")[:600]))
@@ -207,8 +217,9 @@ def finish(pid, prop, tier, seed, reports, wall):
         "wall_s": round(wall, 2),
         "violations": len(seenv),
     }
-    os.makedirs(os.path.join(VERIF, "evidence"), exist_ok=True)
-    json.dump(ev, open(os.path.join(VERIF, "evidence", pid + ".json"), "w"), indent=1)
+    evd = os.environ.get("VERIF_EVIDENCE_DIR", os.path.join(VERIF, "evidence"))
+    os.makedirs(evd, exist_ok=True)
+    json.dump(ev, open(os.path.join(evd, pid + ".json"), "w"), indent=1)
     print("%s %s: %d symbolic runs, %d assertions, %d queries (%d distinct; %d unsat, %d sat), solver %.1fs, twin-validated %d, known %d, violations %d, inconclusive %d, wall %.1fs" % (
         pid, tier, scen, asserts, queries, distinct, unsat, sat, solver_s, twin, len(known), len(seenv), len(inconc), wall))
     if seenv:
